@@ -484,8 +484,39 @@ func identPool(r *lib.Rand, n int) []ident {
 			id.srcIA = ias[r.Intn(len(ias))]
 		}
 		out = append(out, id)
+		// a sibling that shares the remote AS (= the cache slot) and differs in exactly one field
+		if r.Chance(50) {
+			sib := id
+			switch r.Intn(3) {
+			case 0:
+				sib.proto = map[bool]int{true: 5, false: 123}[id.proto == 123]
+			case 1:
+				sib.host = hosts[(r.Intn(3)+1+indexOf(hosts, id.host))%len(hosts)]
+			case 2:
+				sib.srcIA = ias[(r.Intn(3)+1+indexOfU(ias, id.srcIA))%len(ias)]
+			}
+			out = append(out, sib)
+		}
 	}
 	return out
+}
+
+func indexOf(xs []string, x string) int {
+	for i, y := range xs {
+		if y == x {
+			return i
+		}
+	}
+	return 0
+}
+
+func indexOfU(xs []uint64, x uint64) int {
+	for i, y := range xs {
+		if y == x {
+			return i
+		}
+	}
+	return 0
 }
 
 // genHonest: histories of FetchHostASKey calls against an honest daemon whose keys rotate by
